@@ -24,7 +24,7 @@ CLAIMED = {
     "C05": ("Coq theorems C05_differentiate / C05_outputs_sorted against an abstract iterated partial-derivative operator + "
             "correspondence of differentiate_m with cirkit differentiate inside Coq + autograd oracle on compiled circuits",
             "Machine-checked proof on the semantic model (any order through the abstraction); sampled correspondence and oracle tie it to the code.",
-            "That PolynomialDifferential computes the k-th formal derivative is checked per instance; torch autograd trusted as oracle."),
+            "C05_differentiate_real instantiates the abstract derivative with the real partial derivative (Coquelicot; standard-library real-number axioms ClassicalDedekindReals.sig_forall_dec / sig_not_dec, functional_extensionality_dep, Classical_Prop.classic, named in DESIGN.md). That PolynomialDifferential computes the k-th formal derivative is checked per instance; torch autograd trusted as oracle."),
     "C06": ("Coq theorems C06_evidence, C06_evidence_scope, C06_concatenate(_nth) + correspondence inside Coq + oracle on compiled circuits under all flags",
             "Machine-checked proof on the semantic model for all circuits and observations; sampled correspondence ties it to the code.", ""),
     "C07": ("Coq theorems C07_conjugate, C07_involutive, C07_real_identity over any semiring endomorphism, instantiated at Gaussian rationals + "
@@ -69,7 +69,7 @@ CLAIMED = {
             "torch RNG trusted; the statistical tie cannot exhibit deviations below the test's power (partial)."),
     "C16": ("Coq theorems C16_valid_spec, C16_sd_flag, C16_fully_factorized, C16_linear_tree + verified predicates evaluated on every exported region graph and circuit + dump/load round trip",
             "Validity and the structured-decomposability flag are decided by verified predicates on every generated graph; two constructions are proved valid for all sizes.",
-            "RandomBinaryTree, QuadTree/QuadGraph, Poon-Domingos and Chow-Liu are certified per instance only."),
+            "C16_tree_valid / C16_tree_structured_decomposable prove every tree-shaped region graph valid and SD (RandomBinaryTree, LinearTree, QuadTree, tree2rg) and repetitions valid; that each algorithm outputs such a tree, and the non-tree graphs (QuadGraph, Poon-Domingos), are certified per instance by the verified predicates."),
     "C17": ("Coq theorems C17_axis, C17_dirichlet_shape, C17_foldwise_slice + translator route (GenAgree.source_simplex_axis over the current source) + per-slice value/flag checks through the registry",
             "The axis/slice bookkeeping is proved for all ranks, axes and fold positions and tied to the source by re-translation on every run.", "Distributional facts (Dirichlet, uniform, normal) are torch's: checked numerically only."),
     "C18": ("Coq theorems C18_contexts (token restoration for every well-bracketed history), C18_memo, C18_bijection, C18_operands_first + the model state machines run on the same random "
